@@ -81,8 +81,11 @@ class FaultChannel(BaseChannel):
         self.plan, self.tap, self.factory, self.n = plan, tap, clean_mod_factory, n
         self.fired = {}
         self.bits_after = None
+        self.armed = True
 
     def forward(self, x, *args, **kwargs):
+        if not self.armed:
+            return x
         if self.tap.sym_out is None or x.shape != self.tap.sym_out.shape or not torch.equal(x, self.tap.sym_out):
             raise HarnessError("channel input differs from what the modulator emitted (a stage between them is not the identity)")
         kind = self.plan["kind"]
@@ -132,13 +135,29 @@ class LinkResult:
         self.max_flips_per_block = 0
         self.bits_sent = None
         self.bits_received = None
+        self.fired_history = 0
 
 
 def run_link(case: dict) -> LinkResult:
     """Assemble the real ChannelCodeModel for the case and push the messages through it."""
     res = LinkResult()
-    enc = C.build_encoder(case["code"])
-    dec = C.build_decoder(case["code"], case["decoder"], case.get("dec_opts"))
+    if case.get("prelude"):
+        # hermetic history: an earlier, similar encoder/decoder pair is built (and used once) in this process
+        # first, then the pair under test is built fresh, so that the case alone reproduces any leak between them
+        pre = case["prelude"]
+        try:
+            pdec = C.build_decoder(pre, case["decoder"], case.get("dec_opts"), fresh=True)
+            penc = pdec.encoder
+            with torch.no_grad(), contextlib.redirect_stdout(io.StringIO()):
+                pdec(torch.ones(1, penc.code_length) if case.get("soft") else penc(torch.zeros(1, penc.code_dimension)))
+        except Exception:
+            pass  # nothing is asked of the prelude itself
+        dec = C.build_decoder(case["code"], case["decoder"], case.get("dec_opts"), fresh=True)
+        enc = dec.encoder
+        res.fired_history = 1
+    else:
+        enc = C.build_encoder(case["code"])
+        dec = C.build_decoder(case["code"], case["decoder"], case.get("dec_opts"))
     mod, demod = C.build_modem(case["mod"], case.get("via_registry", False))
     mod.eval()
     demod.eval()
@@ -161,6 +180,22 @@ def run_link(case: dict) -> LinkResult:
     msg = torch.tensor(case["messages"], dtype=torch.float32)
     if case.get("one_d"):
         msg = msg.reshape(-1)
+    if case.get("warmup_messages"):
+        # earlier uses of the same chain object (eval mode); the injector is disarmed, outputs are not judged here
+        if isinstance(channel, FaultChannel):
+            channel.armed = False
+        torch.manual_seed(case.get("plan", {}).get("torch_seed", 0) ^ 0x5555)
+        for wm in case["warmup_messages"]:
+            try:
+                with torch.no_grad(), contextlib.redirect_stdout(io.StringIO()):
+                    w = torch.tensor(wm, dtype=torch.float32)
+                    model(w, noise_var=case["noise_var"]) if case.get("soft") else model(w)
+            except Exception:
+                pass
+        if isinstance(channel, FaultChannel):
+            channel.armed = True
+        tmod.bits_in = tmod.sym_out = None
+        tdem.sym_in = tdem.out = None
     if "torch_seed" in plan:
         torch.manual_seed(plan["torch_seed"])
     try:
